@@ -239,6 +239,7 @@ BUILD_SHARDS = 24
 
 
 def shards(tier: str, seed: int) -> list:
+    make_record(10, False)        # import antismash once, before the driver forks its workers
     out = [{"fn": "lookup", "tier": tier, "index": i, "of": LOOKUP_SHARDS} for i in range(LOOKUP_SHARDS)]
     out += [{"fn": "build", "tier": tier, "index": i, "of": BUILD_SHARDS} for i in range(BUILD_SHARDS)]
     if tier != "quick":
@@ -250,11 +251,15 @@ def run_shard(shard: Dict[str, Any], run: Any) -> None:
     if shard["fn"] == "lookup":
         layouts = _lookup_layouts(shard["tier"])
         for circular, genes in layouts[shard["index"]::shard["of"]]:
+            if run.out_of_time():           # budget exhausted: the run is reported as truncated
+                return
             _run_lookup_layout(run, circular, genes, _queries(circular))
     elif shard["fn"] == "build":
         layouts = _build_layouts(shard["tier"])
         for circular, genes in layouts[shard["index"]::shard["of"]]:
             pool = AREA_POOL_CIRCULAR if circular else AREA_POOL_LINEAR
+            if run.out_of_time():
+                return
             for areas in pool:
                 for slots in _slot_vectors(len(genes), len(areas) + 2, shard["tier"]):
                     case = {"fn": "build", "L": LENGTH, "circ": circular, "genes": genes,
